@@ -1,4 +1,5 @@
 import Hls.Playlist.MultiLemmas
+import Hls.Playlist.GrammarLemmas
 /-!
 # C15 (multivariant half) — Playlist decoder is total; encoder output is grammatical M3U8
 
@@ -95,5 +96,37 @@ theorem c15_remarshal_multi (s : Str) (p : Multivariant) (h : Multivariant.unmar
     ++ c!"\n"
     ++ (p.variants.map Variant.marshal).flatten, ?_⟩
   cases p.start <;> simp
+
+/-- `c15_grammar_multi`: every playlist `Multivariant.Marshal` produces from a valid value parses
+    under the independent strict RFC 8216 grammar `Hls.Playlist.Grammar` (`#EXTM3U` first, every tag
+    known and only where it is allowed, `once` tags once, attribute names defined for the tag and not
+    repeated, required attributes present, every value of the lexical class of its attribute, every
+    URI line directly preceded by its EXT-X-STREAM-INF).
+    `LexicalOK p`: the one attribute the library passes through verbatim, RESOLUTION, is a
+    decimal-resolution; `FloatOK p`: the float envelope at `p`'s float fields (see C14Multi). -/
+theorem c15_grammar_multi (p : Multivariant) (h : WFMultivariant p) (hl : LexicalOK p) (hf : FloatOK p) :
+    Grammar.acceptsMultivariant p.marshal = true := accepts_marshal h hl hf
+
+/-- the full statement, with the float envelope as named hypotheses -/
+theorem c15_grammar_multi_partial (env : FloatEnvelope) (env3 : FloatEnvelope3) (p : Multivariant)
+    (h : WFMultivariant p) (hl : LexicalOK p) : Grammar.acceptsMultivariant p.marshal = true :=
+  accepts_marshal h hl (FloatOK_of_envelope env env3 h)
+
+/-- without EXT-X-START the grammar theorem needs no float hypothesis at all
+    (FRAME-RATE texts are `digits.digits` by construction of `FormatFloat`) -/
+theorem c15_grammar_multi_nostart (p : Multivariant) (h : WFMultivariant p) (hl : LexicalOK p) (hs : p.start = none) :
+    Grammar.acceptsMultivariant p.marshal = true := by
+  -- the grammar proof uses `FloatOK` only through its EXT-X-START component
+  have : OptAll p.start (fun t => DurFloatOK t.timeOffset) := by rw [hs]; trivial
+  exact accepts_marshal_of_start h hl this
+
+example : ∃ p : Multivariant, WFMultivariant p ∧ LexicalOK p ∧ FloatOK p :=
+  ⟨{ version := 3, variants := [{ bandwidth := 1, codecs := [c!"avc1"], resolution := c!"1280x720", uri := c!"a.m3u8" }],
+     renditions := [{ type := c!"AUDIO", groupID := c!"g", name := c!"n" }] }, by decide, by decide, by decide⟩
+
+/-- the grammar is strict: it rejects what the library's own decoder tolerates -/
+example : Grammar.acceptsMultivariant c!"#EXTM3U\n#EXT-X-STREAM-INF:BANDWIDTH=1,BANDWIDTH=2\nu\n" = false := by decide
+example : Grammar.acceptsMultivariant c!"#EXTM3U\n#EXT-X-STREAM-INF:BANDWIDTH=1\n" = false := by decide
+example : Grammar.acceptsMultivariant c!"#EXTM3U\n#EXT-X-STREAM-INF:BANDWIDTH=1\nu\n" = true := by decide
 
 end Hls.Props.C15Multi
